@@ -185,9 +185,22 @@ func (w *world) build(m tmsg, wire bool) (*model.ConsensusVerifyMessage, common.
 		if err != nil {
 			vutil.Fatalf("marshal: %v", err)
 		}
-		dec, err := cnet.UnMarshalConsensusVerifyMessage(body)
-		if err != nil {
-			vutil.Fatalf("unmarshal: %v", err)
+		// production decodes inside ConsensusHandler.Handle, whose recover() discards a message
+		// the decoder cannot parse (malformed share bytes): such a message never reaches the round
+		var dec *model.ConsensusVerifyMessage
+		func() {
+			defer func() {
+				if p := recover(); p != nil {
+					dec = nil
+				}
+			}()
+			d, err := cnet.UnMarshalConsensusVerifyMessage(body)
+			if err == nil {
+				dec = d
+			}
+		}()
+		if dec == nil {
+			return nil, dataHash, shareBytes, rndBytes
 		}
 		cvm = dec
 	}
@@ -289,7 +302,9 @@ func main() {
 						panicked = true
 					}
 				}()
-				if r.CanAccept(cvm) == 0 { // as baseParty.Update dispatches
+				if cvm == nil {
+					errText = "discarded by the wire decoder"
+				} else if r.CanAccept(cvm) == 0 { // as baseParty.Update dispatches
 					errText = r.Update(cvm)
 				} else {
 					errText = "not accepted by round"
